@@ -1476,10 +1476,47 @@ func (m *MapPollard) Write(w io.Writer) (int, error) {
 	return totalBytes, nil
 }
 
-// Read reads the pollard from the reader into the map pollard variable.
+// clearStores removes every element the node store and the leaf index hold.
+func (m *MapPollard) clearStores() error {
+	positions := make([]uint64, 0, m.Nodes.Length())
+	err := m.Nodes.ForEach(func(k uint64, _ Leaf) error {
+		positions = append(positions, k)
+		return nil
+	})
+	if err != nil {
+		return err
+	}
+	for _, position := range positions {
+		m.Nodes.Delete(position)
+	}
+
+	hashes := make([]Hash, 0, m.CachedLeaves.Length())
+	err = m.CachedLeaves.ForEach(func(k Hash, _ uint64) error {
+		hashes = append(hashes, k)
+		return nil
+	})
+	if err != nil {
+		return err
+	}
+	for _, hash := range hashes {
+		m.CachedLeaves.Delete(hash)
+	}
+
+	return nil
+}
+
+// Read reads the pollard from the reader into the map pollard variable. Whatever
+// the map pollard held before is replaced by what is read.
 func (m *MapPollard) Read(r io.Reader) (int, error) {
 	m.rwLock.Lock()
 	defer m.rwLock.Unlock()
+
+	// The stream describes the whole forest: nodes and cached leaves left over
+	// from the previous state must not survive next to the ones read.
+	err := m.clearStores()
+	if err != nil {
+		return 0, err
+	}
 
 	totalBytes := 0
 
